@@ -157,6 +157,46 @@ pub fn run(ctx: &Ctx) -> i32 {
         });
     }
 
+
+    // overlapping leaves: every leaf holds an opaque cel that covers the whole canvas
+    let maxc = if thorough { 8 } else { 6 };
+    for n in 2..=maxc {
+        let fam = format!("forest-cover-n{}", n);
+        if !ctx.wants_family(&fam) {
+            continue;
+        }
+        let fs = forests(n);
+        ctx.family(&fam, fs.len() as u64 * (1u64 << n) * 3, &format!("all {} forests of {} layers x all visible-flag assignments x cel shape {{exactly the 2x2 canvas, overhanging it on all sides, one pixel short}}: every leaf holds a fully opaque Normal-mode cel at full opacity in its own colour, so the frame shows the topmost visible leaf", fs.len(), n), true);
+        fs.par_iter().for_each(|lv| {
+            for vis in 0..(1u32 << n) {
+                for shape in 0..3u8 {
+                    let case = || format!("{:?} vis={:0w$b} shape={}", lv, vis, shape, w = n);
+                    if !ctx.wants(&fam, &case) {
+                        continue;
+                    }
+                    let mut f = forest_sprite(lv, vis);
+                    f.header.width = 2;
+                    f.header.height = 2;
+                    for c in f.frames[0].chunks.iter_mut() {
+                        if let Body::Cel(cel) = &mut c.body {
+                            let i = cel.layer as usize;
+                            let col = [(10 + i * 20) as u8, (200 - i * 9) as u8, (i * 31) as u8, 255];
+                            let (x, y, w, h) = match shape {
+                                0 => (0i16, 0i16, 2u16, 2u16),
+                                1 => (-1, -1, 4, 4),
+                                _ => (0, 0, 2, 1),
+                            };
+                            cel.x = x;
+                            cel.y = y;
+                            cel.body = CelBody::Raw { w, h, data: col.iter().cycle().take(w as usize * h as usize * 4).copied().collect() };
+                        }
+                    }
+                    conform(ctx, &fam, &case, &f, &want);
+                }
+            }
+        });
+    }
+
     // wide groups: a parent that lies more than 255 / 256 layers before its child
     if ctx.wants_family("wide-groups") {
         let mut cases: Vec<(usize, u32, usize)> = Vec::new();
